@@ -45,7 +45,12 @@ def plan(tier, seed):
                 for reps in repsets:
                     if len(reps) > 1 and not (nary and k >= 2) and narr < 2:
                         continue
-                    for kinds in kindsets:
+                    ksets = list(kindsets)
+                    if reps == 'm' and not heavy:
+                        # integer and unsigned producers (NetCDF "Integer" / "Positive Integer"), alone and mixed
+                        two = (nary and k == 2) or narr >= 2
+                        ksets += (['iu', 'ui', 'uu', 'uf'] if two else (['u', 'i'] if k == 1 else []))
+                    for kinds in dict.fromkeys(ksets):
                         sels = [1, k] if has_sel else [1]
                         for sel in sorted(set(sels)):
                             jobs.append(dict(var, kind='step', cmd=sp.name, shape=[n], k=k, reps=reps, kinds=kinds, pts=2, sel=sel))
@@ -103,7 +108,7 @@ def describe(tier):
         'functions': ['mpilot/commands.py: Command.run, validate_params, result', 'execute() of every data command of basic.py / fuzzy.py: ' + ', '.join(D.command_specs_cached()),
                       'mpilot/utils.py: insure_fuzzy, make_masked', 'mpilot/params.py: ResultParameter/ListParameter/NumberParameter.clean (via Command.run)'],
         'bounds': {
-            'quick': 'producer arrays of 2 cells (3 for statistic-driven consumers), representations masked / nomask / plain ndarray, float64; consumers: every data command, 1-3 inputs for n-ary forms incl. the single-input form, the same producer listed twice; every option value',
+            'quick': 'producer arrays of 2 cells (3 for statistic-driven consumers), representations masked / nomask / plain ndarray, float64 (masked producers also int64 / uint64, alone and mixed); consumers: every data command, 1-3 inputs for n-ary forms incl. the single-input form, the same producer listed twice; every option value',
             'thorough': 'adds 4 inputs, mixed representations and int64/float64 mixes',
         },
         'outside': ['IEEE rounding', 'hard masks', 'I/O commands (C17/C18)', 'values stored under missing cells may change (they are not part of the visible result)'],
